@@ -68,7 +68,7 @@ typedef struct Choice { uint8_t n, chosen; uint8_t cost[MAXALT]; uint64_t fp; } 
 typedef struct Ctl {
     /* in */
     int prefix_len; uint8_t prefix[MAXPREFIX]; uint8_t prefix_n[MAXPREFIX];
-    int horizon; int verbose;
+    int horizon; int verbose; long exec_id;
     /* out */
     int ntrace; Choice trace[MAXCHOICE];
     int overflow;
